@@ -369,27 +369,98 @@ def _observe(cur, sql):
     return out
 
 
-def _snapshot(cur, ntables):
-    dbs = []
-    for i in range(ntables):
-        cur.execute(f"select * from T{i}")
-        dbs.append([list(r) for r in cur.fetchall()])
-    return dbs
+NOP_REGEXES = ["GRANT", "CALL"]   # un-anchored on purpose: they must only act on statements that START with the word
 
 
-def _real_history(conn, case):
-    tables, sqls = case["tables"], case["sqls"]
+def _names(case):
+    """table / column spelling: in `nop` mode every identifier CONTAINS a word of NOP_REGEXES (never at the start of a statement)"""
+    if case.get("nop"):
+        return (lambda i: f"GRANTED{i}"), (lambda j: f"CALL{j}")
+    return (lambda i: f"T{i}"), (lambda j: f"C{j}")
+
+
+def _rename(case, sql):
+    import re
+    tn, cn = _names(case)
+    sql = re.sub(r"\bT(\d)\b", lambda m: tn(int(m.group(1))), sql)
+    return re.sub(r"\b[Cc](\d)\b", lambda m: cn(int(m.group(1))), sql)
+
+
+def _snapshot(cur, case):
+    """contents of the session's own tables (DB1.S1) and of the same-named tables of the other session (DB1.S2)"""
+    tn, _ = _names(case)
+    snap = {}
+    for sch in ("S1", "S2"):
+        dbs = []
+        for i in range(len(case["tables"])):
+            cur.execute(f"select * from DB1.{sch}.{tn(i)}")
+            dbs.append([list(r) for r in cur.fetchall()])
+        snap[sch] = dbs
+    return snap
+
+
+def _read_cursor(cur):
+    out = {"rc": cur.rowcount}
+    out["rows"] = [list(r) for r in cur.fetchall()]
+    try:
+        out["names"] = [d.name for d in cur.description]
+    except Exception as e:
+        out["names"] = f"description raised {type(e).__name__}"
+    return out
+
+
+def _real_history(conn, conn_b, case):
+    """`conn` (current schema DB1.S1) runs the history with UNQUALIFIED names; `conn_b` (current schema DB1.S2, connected later)
+    owns same-named tables with the same initial rows and keeps working between the statements.  mode `cursor`: one
+    cursor.execute per statement; mode `script`: maximal runs of accepted statements go through conn.execute_string and every
+    returned cursor is read only after the whole script ran."""
+    tables, sqls = case["tables"], [_rename(case, q) for q in case["sqls"]]
+    tn, cn = _names(case)
     cur = conn.cursor()
-    for i in range(MAXT):
-        cur.execute(f"drop table if exists T{i}")
-    for i, (a, rows) in enumerate(tables):
-        cur.execute(f"create table T{i} (" + ", ".join(f"C{j} int" for j in range(a)) + ")")
-        if rows:
-            cur.execute(f"insert into T{i} values " + ", ".join("(" + ", ".join(sval(v) for v in r) + ")" for r in rows))
-    obs, dbs = [], []
-    for sql in sqls:
-        obs.append(_observe(cur, sql))
-        dbs.append(_snapshot(conn.cursor(), len(tables)))
+    for sch in ("S1", "S2"):
+        for i in range(MAXT):
+            cur.execute(f"drop table if exists DB1.{sch}.{tn(i)}")
+        for i, (a, rows) in enumerate(tables):
+            cur.execute(f"create table DB1.{sch}.{tn(i)} (" + ", ".join(f"{cn(j)} int" for j in range(a)) + ")")
+            if rows:
+                cur.execute(f"insert into DB1.{sch}.{tn(i)} values " + ", ".join("(" + ", ".join(sval(v) for v in r) + ")" for r in rows))
+    bcur = conn_b.cursor()
+    bcur.execute("use schema s2")
+    n = len(sqls)
+    obs, dbs = [None] * n, [None] * n
+    if case.get("mode", "cursor") == "cursor":
+        for i, sql in enumerate(sqls):
+            bcur.execute(f"select count(*) from {tn(0)}")
+            obs[i] = _observe(cur, sql)
+            dbs[i] = _snapshot(conn.cursor(), case)
+        return {"obs": obs, "dbs": dbs}
+    rejected = case["rejected"]
+    i = 0
+    while i < n:
+        bcur.execute(f"select count(*) from {tn(0)}")
+        if rejected[i]:
+            obs[i] = _observe(cur, sqls[i])
+            dbs[i] = _snapshot(conn.cursor(), case)
+            i += 1
+            continue
+        j = i
+        while j < n and not rejected[j]:
+            j += 1
+        script = ";\n".join(sqls[i:j]) + ";"
+        try:
+            cursors = list(conn.execute_string(script))
+            if len(cursors) != j - i:
+                raise RuntimeError(f"execute_string returned {len(cursors)} cursors for {j - i} statements")
+            rcs = [c.rowcount for c in cursors]                      # all rowcounts first, then the rows: aliasing shows
+            for k, c in enumerate(cursors):
+                o = _read_cursor(c)
+                o["rc"] = rcs[k] if rcs[k] == o["rc"] else [rcs[k], o["rc"]]
+                obs[i + k] = o
+        except Exception as e:
+            for k in range(i, j):
+                obs[k] = {"err": [type(e).__module__ + "." + type(e).__name__, getattr(e, "errno", None), getattr(e, "sqlstate", None)], "script": script}
+        dbs[j - 1] = _snapshot(conn.cursor(), case)
+        i = j
     return {"obs": obs, "dbs": dbs}
 
 
@@ -414,11 +485,15 @@ def _worker(shard):
     import fakesnow
     import snowflake.connector
     res = {}
-    with fakesnow.patch():
-        conn = snowflake.connector.connect(database="db1", schema="s1")
-        for n, (kind, case) in enumerate(shard):
-            if kind == "hist":
-                res[n] = _real_history(conn, case)
+    for nop in (False, True):
+        todo = [(n, case) for n, (kind, case) in enumerate(shard) if kind == "hist" and bool(case.get("nop")) == nop]
+        if not todo:
+            continue
+        with fakesnow.patch(**({"nop_regexes": NOP_REGEXES} if nop else {})):
+            conn = snowflake.connector.connect(database="db1", schema="s1")
+            conn_b = snowflake.connector.connect(database="db1", schema="s2")   # a second session, connected later, other schema
+            for n, case in todo:
+                res[n] = _real_history(conn, conn_b, case)
     for n, (kind, case) in enumerate(shard):
         if kind != "hist":
             res[n] = _real_ddl(case)
@@ -451,13 +526,17 @@ def _bucket(n):
 
 def _check_history(chk, case, real, reply):
     spec, impl = json.loads(reply["spec"]), json.loads(reply["impl"])
-    rcase = {"kind": "hist", "tables": case["tables"], "stmts": case["stmts"], "sqls": case["sqls"]}
+    mode, nop = case.get("mode", "cursor"), bool(case.get("nop"))
+    sqls = [_rename(case, q) for q in case["sqls"]]
+    rcase = {"kind": "hist", "tables": case["tables"], "stmts": case["stmts"], "sqls": case["sqls"], "mode": mode, "nop": nop}
+    how = ("conn.execute_string" if mode == "script" else "cursor.execute") + (f", instance with nop_regexes={NOP_REGEXES}" if nop else "")
+    init = [_canon_rows(rows) for _, rows in case["tables"]]
+    chk.count(f"mode:{mode}{':nop_regexes' if nop else ''}")
     nontrivial = False
-    for i, (s, sql) in enumerate(zip(case["stmts"], case["sqls"])):
+    for i, (s, sql) in enumerate(zip(case["stmts"], sqls)):
         so, io, ro = _canon_obs_model(spec["obs"][i]), _canon_obs_model(impl["obs"][i]), _canon_obs_real(real["obs"][i])
         sdb = [_canon_rows(t) for t in spec["dbs"][i]]
         idb = [_canon_rows(t) for t in impl["dbs"][i]]
-        rdb = [_canon_rows(t) for t in real["dbs"][i]]
         kind = s[0] + (s[3][0] if s[0] == "I" else "")
         if "err" in so:
             chk.count(f"stmt:{kind}:rejected")
@@ -473,17 +552,26 @@ def _check_history(chk, case, real, reply):
             chk.violation(f"`{sql}`: cursor.sqlstate {real['obs'][i]['sqlstate_attr']!r} after error {ro['err']}", rcase, broken="C04 correspondence (error path)")
             break
         if ro != so:
-            what = (f"statement #{i} `{sql}` on tables {['T%d=%s' % (j, t) for j, t in enumerate(real['dbs'][i - 1] if i else [r for _, r in case['tables']])]}: "
-                    f"cursor shows {ro} but SQL semantics/Snowflake status require {so}")
-            chk.violation(what, rcase, broken="C04_count / C04_refines (status row, names, rowcount; correspondence with Fs.Dml.Impl.step)")
+            what = (f"statement #{i} `{sql}` of {sqls} ({how}) on tables {['T%d=%s' % (j, t) for j, (_, t) in enumerate(case['tables'])]}: "
+                    f"its cursor shows {ro} but SQL semantics/Snowflake status require {so}")
+            chk.violation(what, rcase, broken="C04_count / C04_refines / C04_execute_string (status row, names, rowcount; correspondence with Fs.Dml.Impl.step)")
             break
+        if real["dbs"][i] is None:
+            continue
+        rdb = [_canon_rows(t) for t in real["dbs"][i]["S1"]]
+        odb = [_canon_rows(t) for t in real["dbs"][i]["S2"]]
         if rdb != sdb:
             j = next(j for j in range(len(sdb)) if rdb[j] != sdb[j])
             role = "target" if j == s[1] else "bystander"
-            chk.violation(f"statement #{i} `{sql}`: {role} table T{j} now holds {rdb[j]} but SQL semantics require {sdb[j]}", rcase,
+            chk.violation(f"after statement #{i} `{sql}` of {sqls} ({how}): {role} table DB1.S1.T{j} holds {rdb[j]} but SQL semantics require {sdb[j]}", rcase,
                           broken="C04_delete_rows/C04_update_rows/C04_insert_rows/C04_frame (correspondence with Fs.Dml.engine)")
             break
-    chk.case(("hist", case["tok"]), nontrivial=nontrivial)
+        if odb != init:
+            j = next(j for j in range(len(init)) if odb[j] != init[j])
+            chk.violation(f"after statement #{i} `{sql}` of {sqls} ({how}) in the session whose schema is DB1.S1: the other session's table DB1.S2.T{j} changed "
+                          f"from {init[j]} to {odb[j]}", rcase, broken="C04_frame / C04_history_frame (touch nothing else; correspondence)")
+            break
+    chk.case(("hist", case["tok"], mode, nop), nontrivial=nontrivial)
 
 
 def _check_ddl(chk, case, real, reply):
@@ -525,17 +613,20 @@ def _lines(items):
     return out
 
 
-def _mk_hist(rnd, tables, stmts):
-    return {"tables": tables, "stmts": stmts, "sqls": [sstmt(rnd, s) for s in stmts], "tok": tcase(tables, stmts)}
+def _mk_hist(rnd, tables, stmts, mode="cursor", nop=False):
+    return {"tables": tables, "stmts": stmts, "sqls": [sstmt(rnd, s) for s in stmts], "tok": tcase(tables, stmts), "mode": mode, "nop": nop}
 
 
 def _cases(chk):
     rnd = random.Random(chk.seed)
     items = _corpus()
     chk.extra["corpus_cases"] = len(items)
-    items += [("hist", _mk_hist(rnd, t, s)) for t, s in sweep_cases()]
-    nh = 900 if chk.tier == "quick" else 12000
-    items += [("hist", _mk_hist(rnd, *ghistory(rnd))) for _ in range(nh)]
+    for t, s in sweep_cases():
+        items.append(("hist", _mk_hist(rnd, t, s, "cursor")))
+        items.append(("hist", _mk_hist(rnd, t, s, "script", nop=rnd.random() < 0.5)))
+    nh = 800 if chk.tier == "quick" else 10000
+    for _ in range(nh):
+        items.append(("hist", _mk_hist(rnd, *ghistory(rnd), mode=rnd.choice(["cursor", "script"]), nop=rnd.random() < 0.3)))
     items += [("ddl", c) for c in ddl_cases(chk)]
     return items
 
@@ -543,7 +634,7 @@ def _cases(chk):
 def _from_replay(case):
     kind = case["kind"]
     if kind == "hist":
-        c = {"tables": case["tables"], "stmts": case["stmts"], "sqls": case["sqls"]}
+        c = {"tables": case["tables"], "stmts": case["stmts"], "sqls": case["sqls"], "mode": case.get("mode", "cursor"), "nop": bool(case.get("nop"))}
         c["tok"] = tcase(c["tables"], c["stmts"])
     else:
         c = {k: v for k, v in case.items() if k != "kind"}
@@ -553,6 +644,14 @@ def _from_replay(case):
 def _corpus():
     d = common.CORPUS / "C04"
     return [_from_replay(json.loads(f.read_text())["case"]) for f in sorted(d.glob("*.json"))] if d.is_dir() else []
+
+
+def _model(items):
+    replies = common.batch(_lines(items))
+    for (kind, case), reply in zip(items, replies):
+        if kind == "hist" and "spec" in reply:
+            case["rejected"] = [isinstance(o, str) for o in json.loads(reply["spec"])["obs"]]
+    return replies
 
 
 def _evaluate(chk, items, reals, replies):
@@ -566,11 +665,13 @@ def run(chk) -> None:
     items = _cases(chk)
     chk.rule = ("histories of 3-8 generated DML statements over 2-3 tables (arity 1-3, 0-8 rows of NULL/-2..3 with duplicates), random 3VL predicates "
                 "(depth<=3, 14% forced to select nothing), 10% statements with one injected rejection cause; every statement's status row, names, "
-                "rowcount/error and all table contents compared; sweep kind x affected count {0,1,2,6} x empty/non-empty; DDL kinds x 7 name "
+                "rowcount/error and all table contents compared; half of the histories go through conn.execute_string (every returned cursor read after the script), "
+                "30% run on an instance with un-anchored nop_regexes and identifiers containing those words, always with a second session (other current schema, "
+                "same-named tables) working in between and its tables compared too; sweep kind x affected count {0,1,2,6} x empty/non-empty; DDL kinds x 7 name "
                 "spellings x 3 qualification levels x IF [NOT] EXISTS no-op.  non-trivial = distinct history with a statement affecting >=1 row, or a DDL case")
     shards = common.chunks(items, 16)
+    replies = [_model(s) for s in shards]      # the model first: script mode needs to know which statements are rejected
     reals = common.shard_map(_worker, shards)
-    replies = [common.batch(_lines(s)) for s in shards]
     for shard, rs, ms in zip(shards, reals, replies):
         _evaluate(chk, shard, rs, ms)
     hs = [c for k, c in items if k == "hist"]
@@ -588,5 +689,5 @@ def run(chk) -> None:
 
 def replay(chk, case) -> None:
     items = [_from_replay(case)]
-    reals = _worker(items)
-    _evaluate(chk, items, reals, common.batch(_lines(items)))
+    replies = _model(items)
+    _evaluate(chk, items, _worker(items), replies)
